@@ -399,10 +399,20 @@ async def _aiter(lines: T.Sequence[str]) -> T.AsyncIterator[str]:
         yield l
 
 
-def fold_real(lines: T.Sequence[str], rc: int) -> dict:
+# how a run is displayed must not matter for its verdict: (is_parallel, verbose) as SingleTestRunner passes them
+# (interactive runs are not parsed at all by design and are not part of this)
+DEFAULT_MODE = (True, False)
+MODES: T.List[T.Tuple[bool, bool]] = [(True, False), (True, True), (False, False), (False, True)]
+
+
+def mode_label(mode: T.Tuple[bool, bool]) -> str:
+    return ('parallel' if mode[0] else 'serial') + ('+verbose' if mode[1] else '')
+
+
+def fold_real(lines: T.Sequence[str], rc: int, mode: T.Tuple[bool, bool] = DEFAULT_MODE) -> dict:
     """Drive the real TestRunTAP: start, parse(harness, lines), returncode, complete."""
     install_fold_contract()
-    run = MT.TestRun(_serialisation(), {}, 't', 30, True, False, False)
+    run = MT.TestRun(_serialisation(), {}, 't', 30, mode[0], mode[1], False)
     h = _Harness()
     out: dict = {'class': type(run).__name__, 'raised': None, 'contract': None}
     try:
@@ -436,19 +446,22 @@ def fold_real(lines: T.Sequence[str], rc: int) -> dict:
     return out
 
 
-def check_fold(acc: Acc, phase: str, lines: T.Sequence[str], rc: int, obs: T.Optional[Obs] = None) -> None:
+def check_fold(acc: Acc, phase: str, lines: T.Sequence[str], rc: int, obs: T.Optional[Obs] = None,
+               mode: T.Tuple[bool, bool] = DEFAULT_MODE) -> None:
     obs = obs or observe(lines)
     if obs.raised:
         return
-    f = fold_real(lines, rc)
+    f = fold_real(lines, rc, mode)
     acc.count('monitor:verdict-fold')
-    w = {'phase': phase, 'lines': clip_lines(lines), 'rc': rc, 'fold': f, 'real_events': [ev_json(e) for _, e in obs.events][:30],
+    acc.count('observed:fold-mode:' + mode_label(mode))
+    sfx = '' if mode == DEFAULT_MODE else f'[{mode_label(mode)}]'
+    w = {'phase': phase, 'lines': clip_lines(lines), 'rc': rc, 'mode': list(mode), 'fold': f, 'real_events': [ev_json(e) for _, e in obs.events][:30],
          'replayable': True}
     if f['raised']:
-        acc.finding('fold-raised:' + f['raised'].split(':')[0], w)
+        acc.finding('fold-raised:' + f['raised'].split(':')[0] + sfx, w)
         return
     if f['contract']:
-        acc.finding('fold-contract:' + f['contract'].split(':')[0], w)
+        acc.finding('fold-contract:' + f['contract'].split(':')[0] + sfx, w)
     evs = [e for _, e in obs.events]
     tests = [e for e in evs if ename(e) == 'Test']
     failed = any(e.result.name == 'FAIL' for e in tests)
@@ -461,11 +474,11 @@ def check_fold(acc: Acc, phase: str, lines: T.Sequence[str], rc: int, obs: T.Opt
         if expect_bad:
             why = [n for n, c in (('nonzero-exit', rc != 0), ('error-event', err), ('bail-out', bail),
                                   ('failed-subtest', failed), ('unexpected-pass', upass)) if c]
-            acc.finding('fold-bad-run-reported-good:' + '+'.join(why), w)
+            acc.finding('fold-bad-run-reported-good:' + '+'.join(why) + sfx, w)
         else:
-            acc.finding('fold-good-run-reported-bad:' + f['res'], w)
+            acc.finding('fold-good-run-reported-bad:' + f['res'] + sfx, w)
     if f['nresults'] != len(tests) or f['subtests_logged'] != len(tests) + sum(1 for e in evs if ename(e) == 'Bailout'):
-        acc.finding('fold-subtest-list-differs', w)
+        acc.finding('fold-subtest-list-differs' + sfx, w)
 
 
 # =====================================================================================================
@@ -615,6 +628,13 @@ def work_exhaustive(item: T.Tuple[T.Any, ...]) -> dict:
             if do_fold and len(lines) <= 3:
                 for rc in (0, 1):
                     check_fold(acc, phase, lines, rc)
+                # the display modes: all of them for the short streams, one (rotating) for the longer ones
+                if len(lines) <= 2:
+                    for mode in MODES[1:]:
+                        for rc in (0, 1):
+                            check_fold(acc, phase, lines, rc, mode=mode)
+                else:
+                    check_fold(acc, phase, lines, n & 1, mode=MODES[1 + n % 3])
             if do_pipe and len(lines) <= pipe_len:
                 check_pipeline(acc, phase, ''.join(lines), 0)
             n += 1
@@ -637,7 +657,7 @@ def work_random(item: T.Tuple[str, int, int, float]) -> dict:
         acc.count(f'lines:{kind}', len(lines))
         check_stream(acc, 'random:' + kind, lines, by_line=(i % 4 == 0))
         if i % 8 == 0:
-            check_fold(acc, 'random:' + kind, lines, rng.choice(EXIT_CODES))
+            check_fold(acc, 'random:' + kind, lines, rng.choice(EXIT_CODES), mode=rng.choice(MODES))
         if i % 8 == 1:
             text = ''.join(l if l.endswith('\n') else l + '\n' for l in lines[:-1]) + (lines[-1] if lines else '')
             check_pipeline(acc, 'random:' + kind, text, rng.choice((0, 0, 1)))
@@ -784,6 +804,8 @@ def _judge(chk: common.Check, inv: dict, cases: T.Dict[str, dict], label: str) -
         chk.count('monitor:meson-test-verdict')
         if any(not l.strip('\r\n') for l in lines[:-1]):
             chk.count('observed:meson-test:stream-with-empty-line-before-more')
+        if '--verbose' in inv['args'] or tn.startswith('serv_'):
+            chk.count('observed:meson-test:verbose-' + ('serial' if _runs_serially(inv, tn, cases) else 'parallel'))
         if c.get('stderr'):
             chk.count('observed:meson-test:tap-like-or-other-stderr' + (':no-stdsplit' if '--no-stdsplit' in inv['args'] else ''))
         chk.case(f'meson:{label}:{tn}')
@@ -810,7 +832,7 @@ def _judge(chk: common.Check, inv: dict, cases: T.Dict[str, dict], label: str) -
                 pm = sorted(m for m in acc.found if m.startswith('pipeline-'))
                 if pm:
                     mech += '(' + pm[0] + ')'
-                elif c.get('stderr'):
+                elif c.get('stderr') and '--no-stdsplit' in inv['args']:
                     mech += '(stderr-text-changes-verdict' + (':' + '+'.join(a for a in inv['args'] if a.startswith('--') and
                                                                              a not in ('--num-processes', '--suite')) if label != 'all' else '') + ')'
             chk.violation(mech, {'phase': 'meson-test', 'test': tn, 'invocation': inv['args'], 'lines': clip_lines(lines), 'rc': rc,
@@ -829,6 +851,13 @@ def _judge(chk: common.Check, inv: dict, cases: T.Dict[str, dict], label: str) -
                                                        f'exit-{inv["rc"]}-with-only-good-tests'),
                           {'phase': 'meson-test', 'invocation': inv['args'], 'exit': inv['rc'],
                            'results': {k: v['result'] for k, v in inv['results'].items()}, 'run': inv['brief']})
+
+
+def _runs_serially(inv: dict, tn: str, cases: T.Dict[str, dict]) -> bool:
+    """is_parallel: false, or one process (asked for, or because only one test is selected)"""
+    a = inv['args']
+    one = '--num-processes' in a and a[a.index('--num-processes') + 1] == '1'
+    return tn.startswith(('ser_', 'serv_')) or one or len(c_selected(inv, cases)) == 1
 
 
 def c_selected(inv: dict, cases: T.Dict[str, dict]) -> T.List[str]:
@@ -882,6 +911,17 @@ def meson_sample(chk: common.Check) -> None:
         cases[nm] = {'lines': split_stdout(out), 'rc': rc, 'stderr': err}
         stderr_names.append(nm)
         mb.append(f"test('{nm}', py, args: [emit2, files('e{i:02d}.out'), '{rc}', files('e{i:02d}.err')], protocol: 'tap', suite: 'stderr')")
+    # the display dimension: tests that run serially (is_parallel: false), some of them verbose by declaration
+    serial_names: T.List[str] = []
+    for i, (nm, text) in enumerate(texts):
+        if nm not in ('clean', 'failed', 'upass', 'bailout', 'toofew', 'allskip', 'yamlopen', 'blank_then_fail', 'crlf_clean'):
+            continue
+        for rc, kw, tag in ((0, "is_parallel: false", 'ser'), (0, "is_parallel: false, verbose: true", 'serv'),
+                            (3, "is_parallel: false, verbose: true", 'serv')):
+            tn = f'{tag}_{nm}_rc{rc}'
+            cases[tn] = {'lines': split_stdout(text), 'rc': rc}
+            serial_names.append(tn)
+            mb.append(f"test('{tn}', py, args: [emit, files('s{i:02d}.tap'), '{rc}'], protocol: 'tap', suite: 'serial', {kw})")
     files['meson.build'] = '\n'.join(mb) + '\n'
     runner.write_tree(src, files)
     r = runner.meson(['setup', bdir], cwd=src, timeout=120)
@@ -910,6 +950,16 @@ def meson_sample(chk: common.Check) -> None:
     ]
     for k, (nm, bad) in enumerate(only):
         jobs.append((f'only:{nm}', f'only{k}', good + bad, good + bad))
+    # how the run is displayed must not change verdicts or the exit status: verbose x serial/parallel x selection size
+    jobs.append(('serial', 'serial0', serial_names, ['--suite', 'serial']))
+    jobs.append(('serial-verbose', 'serial1', serial_names, ['--verbose', '--suite', 'serial']))
+    jobs.append(('stderr-verbose-one-process', 'serial2', stderr_names,
+                 ['--verbose', '--no-stdsplit', '--num-processes', '1', '--suite', 'stderr']))
+    sel = good + by_prefix('_failed_', 0) + by_prefix('_bailout_', 0) + by_prefix('_toofew_', 0)
+    jobs.append(('verbose-one-process', 'serial3', sel, ['--verbose', '--num-processes', '1'] + sel))
+    for k, one in enumerate(by_prefix('_failed_', 0) + by_prefix('_bailout_', 0) + by_prefix('_clean_', 1) + by_prefix('_upass_', 0) +
+                            by_prefix('_clean_', 0)):
+        jobs.append((f'verbose-single:{one}', f'single{k}', [one], ['--verbose', one]))
     todo = [(src, bdir, logbase, args) for _, logbase, _, args in jobs]
     invs = common.pmap(_invoke, todo, min(chk.jobs, 6))
     for (label, _, selected, _), inv in zip(jobs, invs):
@@ -1016,7 +1066,7 @@ def replay(chk: common.Check, path: str) -> int:
     acc = Acc()
     fs = check_stream(acc, 'replay', lines, by_line=True)
     if 'rc' in w:
-        check_fold(acc, 'replay', lines, w['rc'])
+        check_fold(acc, 'replay', lines, w['rc'], mode=tuple(w.get('mode') or DEFAULT_MODE))
         check_pipeline(acc, 'replay', w.get('stdout') or ''.join(l if l.endswith('\n') else l + '\n' for l in lines), w['rc'])
     mechs = sorted({m for m, _ in fs} | set(acc.found))
     mech = mech.split('(')[-1].rstrip(')') if mech.startswith('meson-test-verdict') and '(' in mech else mech
@@ -1088,7 +1138,7 @@ def main() -> int:
             for rc in EXIT_CODES[2:]:
                 check_fold(facc, 'fold', list(seq), rc)
     for _ in range(300 if quick else 3000):
-        check_fold(facc, 'fold', gen.structured(frng, max_lines=30), frng.choice(EXIT_CODES))
+        check_fold(facc, 'fold', gen.structured(frng, max_lines=30), frng.choice(EXIT_CODES), mode=frng.choice(MODES))
     merge(chk, [facc.data()], best, totals)
 
     # ---- 4. a sample through the real `meson test` ------------------------------------------------------------------------
@@ -1139,7 +1189,9 @@ def main() -> int:
                  ('monitor:pipeline-vs-direct', 1000), ('observed:pipeline:stream-with-empty-line', 100),
                  ('observed:meson-test:stream-with-empty-line-before-more', 20),
                  ('observed:meson-test:tap-like-or-other-stderr:no-stdsplit', 20), ('monitor:meson-test-exit-status', 10),
-                 ('observed:meson-test-exit:all-good', 1), ('observed:meson-test-exit:some-bad', 8),
+                 ('observed:meson-test-exit:all-good', 2), ('observed:meson-test-exit:some-bad', 8),
+                 ('observed:meson-test:verbose-serial', 30), ('observed:meson-test:verbose-parallel', 5),
+                 ('observed:fold-mode:serial+verbose', 500), ('observed:fold-mode:serial', 500), ('observed:fold-mode:parallel+verbose', 500),
                  ('contract:complete.nonzero-exit-is-bad', 100), ('pinned-streams', len(PINNED)),
                  ('probe:' + KNOWN_COMPENSATING, 1), ('probe:' + KNOWN_DIGITS, 1), ('probe:' + KNOWN_BELOW_ONE, 1)):
         chk.require(m, n)
